@@ -506,7 +506,7 @@ def run_machine(draws, state, tier):
         if V:
             break
         op = st.weighted((3, 3, 2, 2, 3, 2, 2 if entry.kind == "sdl" else 0,
-                          2 if len(live) > 1 else 0), "op")
+                          2), "op")
         # 0 clone, 1 visibility, 2 camelcase, 3 chained, 4 extend, 5 use,
         # 6 schema directives (applied to a clone of the target)
         li = st.below(len(live), "target")
@@ -519,6 +519,56 @@ def run_machine(draws, state, tier):
         if op == 7:
             # configure a derived schema (register a resolver on it): no other
             # live schema may notice
+            if st.chance(1, 3, "refused_cfg"):
+                # a registration that is REFUSED changes nothing, on any live
+                # schema (the source included)
+                li = st.below(len(live), "refused_on")
+                tgt = live[li]
+                sch = tgt.schema
+                objs = sorted(n for n, t in sch.types.items()
+                              if isinstance(t, ObjectType) and t.fields
+                              and not n.startswith("__"))
+                others = sorted(n for n, t in sch.types.items()
+                                if not isinstance(t, ObjectType)
+                                and not n.startswith("__"))
+                kind = st.below(4, "refused_kind")
+                tname = objs[st.below(len(objs), "cfg_type")]
+                fields = sch.types[tname].fields
+                fname = fields[st.below(len(fields), "cfg_field")].name
+                fn = _mk("refused:%s.%s@%d" % (tname, fname, step))
+                how = ("register_resolver", "register_subscription",
+                       "register_default_resolver")[st.below(3, "cfg_api")]
+                if kind == 0:
+                    tname = "NoSuchType%d" % step
+                elif kind == 1:
+                    fname = "no_such_field_%d" % step
+                elif kind == 2 and others:
+                    tname = others[st.below(len(others), "cfg_other")]
+                else:
+                    kind = 3  # no allow_override where something is set
+                seq.append(("refused-configure", li, how, kind))
+                try:
+                    if how == "register_default_resolver":
+                        sch.register_default_resolver(tname, fn)
+                    else:
+                        getattr(sch, how)(tname, fname, fn)
+                except (GraphQLError, ValueError, KeyError):
+                    res.count("probe:refused_configure")
+                    d = _struct.diff(tgt.fp, _struct.describe(sch,
+                                                              identity=True))
+                    if d:
+                        what = [p for p in d[0] if isinstance(p, str)]
+                        fail("source_modified",
+                             ("refused-configure", what[0] if what else "?"),
+                             "%s(%r, ...) on live[%d] (%s) was refused yet "
+                             "changed it at %r" % (how, tname, li, tgt.origin,
+                                                   d[0]))
+                        break
+                else:
+                    tgt.refresh()  # accepted after all (nothing was set)
+                continue
+            if len(live) < 2:
+                continue
             li = 1 + st.below(len(live) - 1, "derived")
             tgt = live[li]
             objs = sorted(n for n, t in tgt.schema.types.items()
